@@ -12,9 +12,9 @@ Section Tracks.
 
   Lemma push_again_eq (s : server A) p :
     push_again A fx s p =
-    ({| pj := p; cache := cache s; ds := fst (push_all_again (fix12a fx) (ds s) (all_errs A p)) |},
-     snd (push_all_again (fix12a fx) (ds s) (all_errs A p))).
-  Proof. unfold push_again. destruct (push_all_again (fix12a fx) (ds s) (all_errs A p)). reflexivity. Qed.
+    ({| pj := p; cache := cache s; ds := fst (push_all_again (fix12a fx) (fix_unhidden fx) (ds s) (all_errs A p)) |},
+     snd (push_all_again (fix12a fx) (fix_unhidden fx) (ds s) (all_errs A p))).
+  Proof. unfold push_again. destruct (push_all_again (fix12a fx) (fix_unhidden fx) (ds s) (all_errs A p)). reflexivity. Qed.
 
   Lemma push_again_tracks s p v :
     tracks (ds s) v -> tracks (ds (fst (push_again A fx s p))) (vapply v (snd (push_again A fx s p))).
@@ -25,7 +25,7 @@ Section Tracks.
   Proof.
     intros H. unfold did_open.
     set (p0 := set_lru A (pj s) (frem f (p_lru (pj s)))).
-    set (s0 := {| pj := p0; cache := aset (cache s) f t; ds := ds s |}).
+    set (s0 := {| pj := p0; cache := aset (cache s) f t; ds := unmark_clean (ds s) f |}).
     assert (H0 : tracks (ds s0) v) by exact H.
     destruct (if fmem f (p_files p0) then (s0, [])
               else let '(p1, chg) := handle_events A fx dk p0 [(f, KCreated)] in
@@ -47,7 +47,7 @@ Section Tracks.
     intros H. unfold did_change. destruct (aget (cache s) f); [|exact H].
     destruct (is_nil (syn A t)).
     - destruct (clear_change (ds s) f) as [d1 ps1] eqn:E1. cbn [fst snd ds]. rewrite vapply_app.
-      apply tracks_clear_syntax. pose proof (tracks_clear_change (ds s) f v H) as HH. rewrite E1 in HH. exact HH.
+      apply tracks_set_clean. apply tracks_clear_syntax. pose proof (tracks_clear_change (ds s) f v H) as HH. rewrite E1 in HH. exact HH.
     - destruct (insert_change (ds s) f (syn A t)) as [d1 ps1] eqn:E1. cbn [fst snd ds].
       pose proof (tracks_insert_change (ds s) f (syn A t) v H) as HH. rewrite E1 in HH. exact HH.
   Qed.
@@ -72,8 +72,10 @@ Section Tracks.
     tracks (ds s) v -> tracks (ds (fst (did_close A fx s f))) (vapply v (snd (did_close A fx s f))).
   Proof.
     intros H. unfold did_close.
-    destruct (clear_change (ds s) f) as [d1 ps1] eqn:E1.
+    destruct (clear_change (ds s) f) as [d0 ps1] eqn:E1.
     pose proof (tracks_clear_change (ds s) f v H) as H1. rewrite E1 in H1. cbn [fst snd] in H1.
+    apply (tracks_set_clean _ (frem f (clean d0))) in H1. fold (unmark_clean d0 f) in H1.
+    set (d1 := unmark_clean d0 f) in *.
     assert (H2 : tracks d1 (vapply v (ps1 ++ (if fix12b fx then push_file_diag d1 f false else [])))).
     { rewrite vapply_app. destruct (fix12b fx); [apply tracks_push_file_diag_full; exact H1|exact H1]. }
     destruct (in_dir A f); cbn [fst snd ds].
@@ -96,8 +98,14 @@ Section Tracks.
     tracks (ds s) v -> tracks (ds (fst (did_watched A fx dk s evs))) (vapply v (snd (did_watched A fx dk s evs))).
   Proof.
     intros H. unfold did_watched.
-    pose proof (clear_fold_tracks evs (ds s) [] v H) as H1. cbn zeta in H1.
-    destruct (fold_left (fun (dp : dstate * list publish) (ev : file * kind) =>
+    assert (H1 : let r := if fix_watched fx then (ds s, [])
+                          else fold_left (fun (dp : dstate * list publish) (ev : file * kind) =>
+                                 let '(d', ps') := clear_change (fst dp) (fst ev) in (d', snd dp ++ ps')) evs (ds s, []) in
+                 tracks (fst r) (vapply v (snd r))).
+    { destruct (fix_watched fx); [exact H|]. exact (clear_fold_tracks evs (ds s) [] v H). }
+    cbn zeta in H1.
+    destruct (if fix_watched fx then (ds s, [])
+              else fold_left (fun (dp : dstate * list publish) (ev : file * kind) =>
                 let '(d', ps') := clear_change (fst dp) (fst ev) in (d', snd dp ++ ps')) evs (ds s, [])) as [d1 ps1].
     cbn [fst snd] in H1. destruct (is_nil evs); [exact H1|].
     set (s1 := {| pj := pj s; cache := cache s; ds := d1 |}).
@@ -167,7 +175,7 @@ Section Tracks.
   Proof.
     unfold run, init_world, init_server.
     pose proof (run_from_tracks h
-      {| disk := dk; sv := {| pj := init_proj A fx dk; cache := []; ds := {| saved := all_errs A (init_proj A fx dk); live := [] |} |};
+      {| disk := dk; sv := {| pj := init_proj A fx dk; cache := []; ds := {| saved := all_errs A (init_proj A fx dk); live := []; clean := [] |} |};
          ebuf := []; dirty := [] |} (push_all_init (all_errs A (init_proj A fx dk)))) as H.
     cbn [sv ds] in H. specialize (H (tracks_init _)).
     destruct (run_from A fx _ h) as [w ps]. exact (H f).
